@@ -22,6 +22,8 @@ def run(ctx):
     ctx.check_proofs()
     ctx.c16_stash = []
     import importlib
+    import os
+    os.environ["VERIF_KEEP_ENTRY"] = "1"
     for fam in FAMS:
         try:
             mod = importlib.import_module("fam." + fam)
@@ -110,11 +112,58 @@ def run(ctx):
         elif idx and not ctx.violations:
             ctx.broken.append("K_macros: the macro fragment model and kfl.Apply differ (or an entry's protocol variant is not in the generated table): case %s" % terms[idx[0]])
         ctx.cov["traces_validated_against_impl"] = len(terms)
+    os.environ.pop("VERIF_KEEP_ENTRY", None)
+    # ---- correspondence for the query clause: the prepared tree of every own query is a click query in the sense of
+    # Kfl/KflClick.v (hypothesis of C16_click_query_eval), all its clauses hold on the entry, and the evaluator model
+    # agrees with kfl.Eval on that (query, entry)
+    if not any(f.startswith("Kfl/") for f in failed):
+        from fam import kfl
+        pool = {}
+        for fam, r, replay in ctx.c16_stash:
+            ej = r.get("entry_json")
+            if not ej or len(ej) > 6000:
+                continue
+            for q in r.get("queries") or []:
+                if q["valid"] and q["truth"] and not A.unsafe_query(q["query"]):
+                    key = (fam, r.get("protocol"), r.get("method"), q["which"])
+                    pool.setdefault(key, []).append((q["query"], ej))
+        pairs = []
+        for key in sorted(pool, key=str):
+            pairs += ctx.rng.sample(pool[key], min(len(pool[key]), 3 if ctx.tier == "quick" else 25))
+        if len(pairs) > (260 if ctx.tier == "quick" else 5000):
+            pairs = ctx.rng.sample(pairs, 260 if ctx.tier == "quick" else 5000)
+        kres = kfl.run_cases(ctx, "eval", [[q, e] for q, e in pairs], extra=["-k"], timeout=1200) if pairs else []
+        items, idx = [], []
+        for i, o in enumerate(kres):
+            it = kfl.k_item(o)
+            if it is not None:
+                items.append(it)
+                idx.append(i)
+        defs = ("Require Import V.Kfl.KflClick.\n"
+                "Definition case_t := (tables * expr * jv * option bool * N)%type.\n"
+                "Definition code (c : case_t) : nat := let '(t, e, r, obs, lim) := c in\n"
+                "  match click_clauses e with\n"
+                "  | Some cs => (if forallb (clause_holds (t_float t) (t_re t) r) cs then 0 else 2) + (if agrees t e r obs then 0 else 1)\n"
+                "  | None => 4\n  end.\n")
+        codes = kfl.k_map(ctx, "click", defs, "code", items) if items else []
+        if codes is None:
+            ctx.broken.append("K_click: coqc failed on the case file")
+        else:
+            ctx.cov["click_queries_validated"] = len(codes)
+            ctx.cov["traces_validated_against_impl"] = ctx.cov.get("traces_validated_against_impl", 0) + len(codes)
+            for code, i in zip(codes, idx):
+                if code and not ctx.violations:
+                    what = ("its prepared tree is not a click query (hypothesis of C16_click_query_eval)" if code & 4 else
+                            "a clause does not hold in the model although kfl.Apply answered true" if code & 2 else "model and kfl.Eval differ")
+                    ctx.broken.append("K_click: %s: %s on %s" % (what, pairs[i][0], pairs[i][1][:300]))
+                    break
+        ctx.log("click queries: %d of %d (query, entry) pairs evaluated in Coq" % (len(items), len(pairs)))
     ctx.trusted += [
         "translator vh-translate/macrotable.go (api.Protocol literals by go/ast; Dissector.Macros() parsed by the real kfl.Parse into the comparison fragment)",
         "translator vh-translate/templates.go (go/ast data flow inside the Summarize functions: template clause path vs the path the interpolated value was read from)",
         "harness/stage: the entry's own queries and every macro are evaluated by the real kfl.Apply on the entry's JSON",
-        "modelled, not verified: the KFL evaluator outside the macro fragment (property C12's model); Summarize templates are exercised, not modelled",
+        "the query clause is proved in the evaluator model of property C12 (Kfl/KflEval.v, Kfl/KflClick.v) over prepared trees; lexing/parsing of the query text is "
+        "not modelled: the trees of the real queries are dumped by vh-kfl and recognised in Coq on every run",
     ]
     return ctx.finish(
         rule="every entry produced by the AMQP, Kafka, HTTP/1-2-gRPC, Redis families' item generators and generated DNS entries, pushed through Analyze/Summarize; "
